@@ -50,8 +50,22 @@ def mc_graphs(module, nseg, maxlinks, name, invariants, lawlinks=None):
     return cases, st
 
 
-def _ov1(k):
-    return "*" if k < 0 else "%dM" % k
+def _cigar(ov):
+    """overlap of an enumerated case as a list of [n, code]: MC_Multiply prints a length k
+    (-1 = `*`), MC_LinearPaths the CIGAR itself"""
+    if isinstance(ov, int):
+        return [] if ov < 0 else [[ov, "M"]]
+    return [list(x) for x in ov]
+
+
+def _ov1(ov):
+    cg = _cigar(ov)
+    return "".join("%d%s" % (n, c) for n, c in cg) if cg else "*"
+
+
+def gfa2_writable(case):
+    """GFA2 alignments admit only M (I, D, P): `=` and `X` exist in GFA1 only"""
+    return all(c == "M" for l in case["links"] for _n, c in _cigar(l["ov"]))
 
 
 def gfa_text(case, ver):
@@ -77,7 +91,7 @@ def gfa_text(case, ver):
         if ver == "gfa1":
             f = ["L", l["n1"], o1, l["n2"], o2, _ov1(l["ov"])]
         else:
-            k = max(l["ov"], 0)
+            k = sum(n for n, _c in _cigar(l["ov"]))
             idtag = []
             f = ["E", eid, l["n1"] + o1, l["n2"] + o2]
             for n, t in ((l["n1"], l["t1"]), (l["n2"], l["t2"])):
@@ -275,7 +289,8 @@ def _intended(case, ver):
         known = ver == "gfa2" or s["ln"] or s["seq"] != "*"
         segs.append(dict(name=s["name"], seq=[] if s["seq"] == "*" else list(s["seq"]),
                          len=s["len"] if known else -1))
-    links = [dict(e1=[l["n1"], l["t1"]], e2=[l["n2"], l["t2"]], ov=l["ov"]) for l in case["links"]]
+    links = [dict(e1=[l["n1"], l["t1"]], e2=[l["n2"], l["t2"]],
+                  ov=[dict(n=n, c=c) for n, c in _cigar(l["ov"])]) for l in case["links"]]
     return dict(segs=segs, links=links, nconts=len(case["conts"]))
 
 
@@ -453,9 +468,19 @@ def c14_jobs(tier, seed, out=None):
     jobs = []
     for i, c in enumerate(cases):
         for ver in ("gfa1", "gfa2"):
+            if ver == "gfa2" and not gfa2_writable(c):
+                continue
             jobs.append(dict(id="c14-%d-%s" % (i, ver), ver=ver, case=c, short=(c["prof"] == 3)))
     if out is not None:
-        out.add_cov(spec_states=st1[1] + st2[1], spec_transitions=st1[0] + st2[0], bounds=bounds)
+        per = {}
+        for j in jobs:
+            k = "profile %d %s" % (j["case"]["prof"], j["ver"])
+            per[k] = per.get(k, 0) + 1
+        joined = sum(1 for j in jobs if any(c != "M" or len(_cigar(l["ov"])) > 1
+                                            for l in j["case"]["links"] for _n, c in _cigar(l["ov"])))
+        out.add_cov(spec_states=st1[1] + st2[1], spec_transitions=st1[0] + st2[0], bounds=bounds,
+                    cases_per_profile=json.dumps(per, sort_keys=True),
+                    cases_with_eq_x_or_multi_op_overlap=joined)
     return jobs
 
 
@@ -523,7 +548,8 @@ def check_c14(out, tier, seed):
     out.assumptions += [
         "TLC and the TLA+ semantics of spec/LinearPaths.tla, Gfa.tla (dovetail ends), TraceGraphOps.tla",
         "harness/project.py + GPool: syntactic abstraction of written lines and object references",
-        "graphs of <= 4 segments and <= 4 dovetails (plus two parallel twins), match-only or `*` overlaps",
+        "graphs of <= 4 segments and <= 4 dovetails (plus two parallel twins); overlaps `*` or CIGARs of 1-2 "
+        "operations over {M, =} of total length <= 2 (3M on the twins); with X: merge or clean refusal accepted",
     ]
 
 
@@ -809,6 +835,13 @@ def selftest():
     mutant("link of another segment altered", base15, "C15.rest",
            lambda r: _repoint(r, "m1", lambda x: x["rt"] == "S" and x["name"] == "C",
                               lambda x: x.update(otags=["zz:i:1"])))
+    # an overlap written with `=`: the successor trimmed by the M operations only (1 instead of 2)
+    g14e = _case([("A", "AACGT", ()), ("B", "CCGA", ())], [("A", "R", "B", "L", [[1, "M"], [1, "="]], ())])
+    base14e = run_c14(dict(id="st14e", ver="gfa1", case=g14e, short=False))
+    variants.append(("c14 with overlap 1M1= as recorded", base14e, None))
+    mutant("successor trimmed by the M operations only", base14e, "C14.sequence",
+           lambda r: _repoint(r, "m1", is_merged,
+                              lambda x: x.update(seq=list("AACGTCGA"), f=["AACGTCGA"], ln=8, num=[8])))
     recs = [r for _, r, _ in variants]
     for r in recs:
         if "broken" in r:
